@@ -6,16 +6,17 @@
 From Coq Require Import List String Ascii Bool Arith ZArith.
 From NG Require Import Gen.C15Consts Svc.HistKey Svc.HistKey_proofs Svc.HistCache Svc.HistCache_proofs
                        Svc.HistCache_more Svc.HistRun Svc.Hist_now Svc.HistEvict
-                       Svc.Params Svc.Params_proofs Svc.Params_more.
+                       Svc.Params Svc.Params_proofs Svc.Params_more Svc.Ctx Svc.Ctx_proofs.
 Import ListNotations.
 Open Scope string_scope.
 Open Scope list_scope.
 
-(* (T) the current source takes a cache hit only for exactly the looked-up message list, and
-   LLMParams.__exit__ restores every saved parameter *)
+(* (T) the current source takes a cache hit only for exactly the looked-up message list,
+   LLMParams.__exit__ restores every saved parameter, and generate_async writes the
+   generation-options context variable on entry of EVERY request (also with options = None) *)
 Theorem C15_lookup_verified_in_source :
-  hist_lookup_verifies_messages = true /\ params_exit_restores_all = true.
-Proof. exact (conj eq_refl eq_refl). Qed.
+  hist_lookup_verifies_messages = true /\ params_exit_restores_all = true /\ ctx_options_always_set = true.
+Proof. exact (conj eq_refl (conj eq_refl eq_refl)). Qed.
 Print Assumptions C15_lookup_verified_in_source.
 
 (* History cache, lookup of the current source, join key with ANY separator / role cases /
@@ -160,3 +161,22 @@ Theorem C15_params_absent_kwarg_refuted :
   exists l alt, NoDup (keys alt) /\ exit_ (snd (enter alt l [])) (fst (enter alt l [])) <> l.
 Proof. exact absent_kwarg_refuted. Qed.
 Print Assumptions C15_params_absent_kwarg_refuted.
+
+(* Per-request context variables, entry code of the current source: for every sequence of
+   requests and task creations - requests served one after the other by the same coroutine
+   share a context, a new task starts with a copy - the LLM calls of a request see exactly that
+   request's own generation options (llm_params, rails, ...), never those of a request served
+   before in the same or any other context *)
+Theorem C15_request_context_own :
+  forall (V : Type) (ops : list (cop V)) (c : ctxs V),
+    Forall (fun x => snd x = fst x) (crun V ctx_options_always_set c ops).
+Proof. exact own_options_seen. Qed.
+Print Assumptions C15_request_context_own.
+
+(* regression documentation: writing the variable only for requests that carry options lets an
+   option-less request see the options of the request served before it in the same context *)
+Theorem C15_stale_context_refuted :
+  exists (ops : list (cop nat)) own seen,
+    In (own, seen) (crun nat false (cinit nat) ops) /\ own = None /\ seen = Some 7.
+Proof. exact conditional_set_refuted. Qed.
+Print Assumptions C15_stale_context_refuted.
